@@ -9,6 +9,7 @@ import (
 	"fmt"
 	"os"
 	"path/filepath"
+	"runtime/pprof"
 	"sort"
 	"strconv"
 	"strings"
@@ -571,6 +572,11 @@ func cmdReplay(args []string) int {
 // ---------------------------------------------------------------- development entry
 
 func cmdHarness(args []string) int {
+	if p := os.Getenv("VERIF_PPROF"); p != "" {
+		f, _ := os.Create(p)
+		pprof.StartCPUProfile(f)
+		defer pprof.StopCPUProfile()
+	}
 	if len(args) < 2 {
 		fmt.Fprintln(os.Stderr, "usage: vcheck harness <pkgdir> <func> [param=v ...] [--unwind=n] [--gor] [--maxpaths=n] [--workers=n]")
 		return 2
@@ -591,6 +597,9 @@ func cmdHarness(args []string) int {
 			for _, k := range strings.Split(a[8:], ",") {
 				cfg.KnownIDs[k] = true
 			}
+		case strings.HasPrefix(a, "--deadline="):
+			d, _ := strconv.Atoi(a[11:])
+			cfg.Deadline = time.Now().Add(time.Duration(d) * time.Second)
 		case strings.HasPrefix(a, "--keep="):
 			cfg.KeepPerSite, _ = strconv.Atoi(a[7:])
 		case a == "--gor":
